@@ -196,7 +196,7 @@ var vHashFree uint32
 var vHashArg string
 var vHashCalls int
 
-//verif:stub (*github.com/basecamp/kamal-proxy/internal/server.RolloutController).hashForValue harness=HarnessRolloutSplitAbs,HarnessRolloutRestart
+//verif:stub (*github.com/basecamp/kamal-proxy/internal/server.RolloutController).hashForValue harness=HarnessRolloutSplitAbs,HarnessRolloutRestart,HarnessRolloutValueVerbatim
 func stubHashForValue(rc *RolloutController, value string) uint32 {
 	vHashCalls++
 	vAssert(value == vHashArg, "split: the hash is taken of exactly the cookie value")
@@ -306,4 +306,25 @@ func HarnessRolloutRestart() {
 	}
 	vCover(vAnd(withSplit, after), "rollout chosen after restart reachable")
 	vCover(vAnd(withSplit, vAnd(has, !after)), "active chosen after restart reachable")
+}
+
+// HarnessRolloutValueVerbatim: the value that is matched against the allowlist and hashed is the cookie's value, byte
+// for byte (no decoding, trimming or case folding), for every cookie octet sequence within the cap.
+func HarnessRolloutValueVerbatim() {
+	capV := vParam("valuecap", 3)
+	value := vString("value", capV)
+	vAssume(vCookieValueOK(value, capV))
+	vAssume(value != "")
+	vHashFree = vUint32("hash")
+	vHashArg = value
+	rc := NewRolloutController(50, nil)
+	r := vRolloutRequest("r", true, value)
+	got := rc.RequestUsesRolloutGroup(r)
+	vAssert(vHashCalls == 1, "verbatim: the percentage decision hashes the cookie value (exactly once)")
+	vAssert(got == (float64(vHashFree) <= float64(uint32(0xFFFFFFFF))*0.5), "verbatim: decision == hash of the verbatim value within the percentage")
+	// allowlisted verbatim value is included whatever its hash
+	rcA := NewRolloutController(0, []string{value})
+	vAssert(rcA.RequestUsesRolloutGroup(r), "verbatim: an allowlist entry equal to the cookie value matches it")
+	vCover(got, "included reachable")
+	vCover(!got, "excluded reachable")
 }
